@@ -13,6 +13,10 @@ def main():
     with open(in_path) as f:
         task = json.load(f)
     tree = os.environ.get("NUCS_VERIF_TREE", "/repo")
+    if os.environ.get("NUCS_VERIF_SANITIZER"):
+        from framework.planes import sanitizer
+
+        sanitizer.install()
     import nucs
 
     real = os.path.realpath(os.path.dirname(os.path.dirname(nucs.__file__)))
